@@ -300,7 +300,12 @@ func (g *Gen) RandomTx(r *mon.Rand, avail []Spendable, o TxOpts) (*wire.MsgTx, [
 		if v == 0 && r.Chance(1, 2) {
 			kind = KOpReturn
 		}
-		tx.AddTxOut(&wire.TxOut{Value: v, PkScript: g.Script(kind, r.Intn(len(g.keys)), r)})
+		pk := g.Script(kind, r.Intn(len(g.keys)), r)
+		if !g.StandardOnly && r.Chance(1, 14) {
+			// a script that does not parse (a push running past its end): valid in an output, never spendable
+			pk = [][]byte{{0x4c}, {0x4b, 0x01}, {0x4d, 0xff}, {0x02, 0x01}, {0x51, 0x4e, 0x01, 0x00, 0x00}, {0xac, 0x05, 0x01, 0x02}}[r.Intn(6)]
+		}
+		tx.AddTxOut(&wire.TxOut{Value: v, PkScript: pk})
 	}
 	if err := g.SignTx(tx, prev); err != nil {
 		panic(err)
